@@ -1114,7 +1114,7 @@ def impl(stream, line):
             return impl(base, line[1:])
         return "ok " + impl(base, line[1:])
     if stream == "tr":
-        return show_tr(B.parse_transform_binary(C.unhx(w[2]), build=w[1]))
+        return show_tr(B.parse_transform_binary(C.unhx(w[2]), **C.drop_defaults(line, {"build": "metadata"}, build=w[1])))
     if stream == "rc":
         return show_rc(B.parse_recover_binary(C.unhx(w[1])))
     if stream == "ex":
